@@ -16,7 +16,8 @@ LAYOUTS = {"d1": [("data", 1)], "d2": [("data", 2)], "a1b2": [("a", 1), ("b", 2)
 
 
 def configs(tier):
-    depths = [1, 2, 3, 4, 5, 6] if tier == "quick" else list(range(1, 13)) + [16]
+    # (a deep configuration as well: implementations may switch strategy above some depth)
+    depths = [1, 2, 3, 4, 5, 6, 65] if tier == "quick" else list(range(1, 13)) + [16, 33, 65, 100]
     out = []
     for d in depths:
         for lay in (["d2"] if (tier == "quick" and d not in (2, 3)) else ["d1", "d2", "a1b2"]):
